@@ -68,6 +68,11 @@ function as an argument, the inner function depending on same-named parameters o
 nested_refs parameter linked to a mutable container that is modified in place and assigned again (the same
 object or a fresh copy): it must mirror the container's current content, follow the added sources and drop
 the removed ones.
+
+Family KW (bounded/c08_kw.py): the POSITION a source enters a reactive expression in (pipeline root, positional
+operand, keyword operand -- rx.pipe, method-call keywords, rx.where, bind / depends keywords, operators) and
+expressions that RAISE for some operand values and recover: the linked parameter is compared with a plain-Python
+model of the expression whenever the model evaluates; a failed evaluation may not poison the link.
 """
 import itertools
 import logging
@@ -83,6 +88,7 @@ from bounded._api import Bounded, REPLAY_HEADER
 from bounded import c08_ext
 from bounded import c08_rj
 from bounded import c08_nm
+from bounded import c08_kw
 
 PRELUDE = '''import logging, warnings
 import param
@@ -604,7 +610,7 @@ def _run(tier, seed):
               "skipping bind@s1} x link mode x relink targets {skipping bind, P}; histories additionally over "
               "{z1, z2: move a source to a value for which the reference skips}. "
               "A case = (configuration, history of maximal length); shorter histories are its prefixes. "
-              + c08_ext.RULE + ' ' + c08_rj.RULE + ' ' + c08_nm.RULE),
+              + c08_ext.RULE + ' ' + c08_rj.RULE + ' ' + c08_nm.RULE + ' ' + c08_kw.RULE),
         bound=("quick: all histories of length <= 2 over 8 operations on the 162 core configurations and a seeded "
                "1/3 of the other 744 + a seeded 1/8 sample of the length-3 histories on the core; skip family: all "
                "histories of length <= 2 over 10 operations on %d configurations" % len(skip_configs('quick'))
@@ -614,7 +620,7 @@ def _run(tier, seed):
                "skip family: all histories of length <= 3 over 10 operations on the %d configurations of the quick "
                "tier, length <= 2 on the other %d (second relink target of p2, shared-source p2, nested_refs=False)"
                % (len(skip_configs('quick')), len(skip_configs('thorough')) - len(skip_configs('quick'))))
-        + '; ' + c08_ext.bound_text(tier) + '; ' + c08_rj.bound_text(tier) + '; ' + c08_nm.bound_text(tier)
+        + '; ' + c08_ext.bound_text(tier) + '; ' + c08_rj.bound_text(tier) + '; ' + c08_nm.bound_text(tier) + '; ' + c08_kw.bound_text(tier)
         + '; context forms (CX): %d ways of calling update(...) x pre {-,rl1,rl2,ov2,u1} x post {u1,u2,ov1,rl2} on the '
           '%s' % (len(CXOPS), 'core configurations (pre=-, post = update of the source of each suspended link complete, the rest a seeded 1/24)' if tier == 'quick'
                   else 'core configurations, 4 pre/post shapes on all the others'))
@@ -680,6 +686,12 @@ def _run(tier, seed):
     nn = max(1, len(ntasks) // 150)
     nchunks = [ntasks[i::nn] for i in range(nn)]
     B.note('families NF / MC (nested functions, mutable containers): %d histories' % len(ntasks))
+    ktasks = c08_kw.tasks(tier, seed)
+    rnd.shuffle(ktasks)
+    nk = max(1, len(ktasks) // 300)
+    kchunks = [ktasks[i::nk] for i in range(nk)]
+    B.note('family KW (operand positions of reactive expressions, raising expressions): %d histories' % len(ktasks))
+    kallv = []
     nallv = []
     rallv = []
     allv = []
@@ -689,6 +701,7 @@ def _run(tier, seed):
         xfuts = [ex.submit(c08_ext.run_chunk, c) for c in xchunks if c]
         rfuts = [ex.submit(c08_rj.run_chunk, c) for c in rchunks if c]
         nfuts = [ex.submit(c08_nm.run_chunk, c) for c in nchunks if c]
+        kfuts = [ex.submit(c08_kw.run_chunk, c) for c in kchunks if c]
         futs = [ex.submit(run_chunk, c) for c in chunks if c]
         for fu in rfuts:
             for key, nval, nleak, _n, viols in fu.result():
@@ -702,6 +715,11 @@ def _run(tier, seed):
                 B.checked('C08/mirror/value == resolve(reference)', nval)
                 B.checked('C08/override-relink/old sources keep no watcher of the target', nleak)
                 nallv += viols
+        for fu in kfuts:
+            for key, nval, _nl, _n, viols in fu.result():
+                B.case(key=key)
+                B.checked(c08_kw.C_MIRROR, nval)
+                kallv += viols
         for fu in xfuts:
             for key, nval, nleak, nref, viols in fu.result():
                 B.case(key=key)
@@ -757,6 +775,7 @@ def _run(tier, seed):
     reports += c08_ext.reports(xallv)
     reports += c08_rj.reports(rallv)
     reports += c08_nm.reports(nallv)
+    reports += c08_kw.reports(kallv)
     reports.sort(key=lambda r: (r[0], r[5], r[1]))
     per_clause, kept = {}, []
     for r in reports:
